@@ -4,7 +4,7 @@
 From Coq Require Import ZArith NArith List Bool.
 From SL Require Import PyInt.
 Import ListNotations.
-Open Scope Z_scope.
+Local Open Scope Z_scope.
 
 (* pattern = prefix ++ "{:d}" ++ suffix ; the default is "" / ") " / 1 *)
 Record key_pattern := { kp_prefix : str; kp_suffix : str; kp_offset : Z }.
